@@ -18,5 +18,6 @@ Conforms(in, obs) ==
   /\ "panic" \notin DOMAIN obs /\ "exit" \notin DOMAIN obs
   /\ obs.eq = Exp(in, "eq") /\ obs.gt = Exp(in, "gt") /\ obs.lt = Exp(in, "lt")
 Describe(in) == [eq |-> Exp(in, "eq"), gt |-> Exp(in, "gt"), lt |-> Exp(in, "lt")]
+Beyond(in) == FALSE
 INSTANCE TraceCheck
 =============================================================================
